@@ -213,8 +213,8 @@ def include_table(repo, run):
             bad2.append((sorted(exists), why, got_adds, want_adds))
         if dirs and any(x[1] != ('/src/main.yaml',) for x in dirs):
             bad2.append((sorted(exists), 'lookup directories are not taken relative to the including file (%s)' % (dirs[0][1],), got_adds, want_adds))
-        if any(x[2].get('safe', 'absent') not in (False, True, None) for x in log if x[0] == 'add'):
-            pass
+        if any(x[2].get('raw_yaml', 'absent') is not False for x in log if x[0] == 'add'):
+            bad2.append((sorted(exists), 'the candidates are not added as files (raw_yaml=False): a name that cannot be opened would be parsed as YAML text instead of being looked for in the next directory', got_adds, want_adds))
         if missing:
             if r.raised != 'FileNotFoundError':
                 bad3.append((sorted(exists), 'files %s are found nowhere but %s' % (missing, 'the sub-build runs although files are missing' if built else 'no FileNotFoundError is raised (raised: %s)' % r.raised)))
@@ -417,6 +417,8 @@ def check(repo, run, tier):
     g(r8, repo, run)
     g(buildrules.builder_pipeline, repo, run, 'C06.R9')
     g(unitrules.subbuilder_request, repo, run, 'C06.R10')
+    g(unitrules.include_init, repo, run, 'C06.R2')
+    g(unitrules.stream_init, repo, run, 'C06.R7')
     g.done()
 
 
@@ -434,6 +436,9 @@ def merge_two(r):
 
 def mutants(repo):
     return [
+        Mutant('include-as-raw-yaml', lambda r: in_func(r, 'IncludeNode.ayns.on_preprocess_impl', "subbuilder.add_source(file, raw_yaml=False, safe=self.ayns.safe)", "subbuilder.add_source(file, safe=self.ayns.safe)"), ['C06.R2']),
+        Mutant('include-one-name-split', lambda r: in_func(r, 'IncludeNode.__init__', "if not isinstance(filenames, cabc.Sequence) or isinstance(filenames, str):", "if not isinstance(filenames, cabc.Sequence) and isinstance(filenames, str):"), ['C06.R2']),
+        Mutant('stream-without-stages', lambda r: in_func(r, 'StreamNode.__init__', "        super().__init__(builder.stages, **kwargs)\n", ""), ['C06.R7']),
         Mutant('subbuilder-outside-preprocessing', lambda r: in_func(r, 'Builder.get_subbuilder', "if self._current_stage is None:", "if self._current_stage is not None:"), ['C06.R10']),
         Mutant('build-skips-preprocess', lambda r: in_func(r, 'Builder.build', "        self.preprocess()\n        self.flatten()", "        self.flatten()"), ['C06.R9']),
         Mutant('preprocess-keeps-old-stage', lambda r: in_func(r, 'Builder.preprocess', "if new_stage is not stage:", "if new_stage is stage:"), ['C06.R9', 'C06.R1']),
